@@ -25,6 +25,12 @@ def run(ctx):
     r.analysed["ambiguous_site_enzymes"] = len(amb)
     for kc in generic_classes(ctx, amb):
         ctx.guard(revcomp_symmetry, ctx, kc, "C12.revcomp-symmetry.ambiguous-site")
+    # and enzymes that cut inside their site (accepted by cutter_check too)
+    from ..kits import inside_cut_enzymes
+    ins = inside_cut_enzymes()
+    r.analysed["inside_cut_enzymes"] = len(ins)
+    for kc in generic_classes(ctx, ins):
+        ctx.guard(revcomp_symmetry, ctx, kc, "C12.revcomp-symmetry.inside-cut")
     # every concrete generic (non-literal, non-part) class of the kits as well
     for kc in ctx.inventory:
         if kc.concrete and not kc.is_part and kc.structure_owner is not kc.ci:
